@@ -613,16 +613,21 @@ structure ModelP where
   opsets : List (String × Nat)
   graph : Graph
 
-/-- nodes of a function body: every node's line list is kept (even when empty) -/
-def translateFunction (o : Opts) (d : Nat) (f : FunctionP) (st : St) : R :=
+/-- the exporter state of `_translate_function` when the signature is printed: `_attr_renaming` reset, the pre-pass
+    over the (sorted) used names done, `_names_used`/`_names_read`/`_local_functions` set, the attribute parameters
+    registered (fix 9e40403: before the inputs are translated) -/
+def funcState (o : Opts) (d : Nat) (f : FunctionP) (st : St) : St :=
   let st := { st with attrRen := [] }
   let (renamed, st) := translateVars o st f.usedOrder
   let st := { st with namesUsed := renamed, namesRead := f.outputs ++ namesReadBy d f.nodes }
+  let st := { st with localFns := (cleanup f.name, f.domain, f.name) :: st.localFns }
+  { st with attrRen := f.attrs.reverse.map (·, none) ++ st.attrRen,
+            namesUsed := f.attrs.reverse ++ st.namesUsed }
+
+/-- nodes of a function body: every node's line list is kept (even when empty) -/
+def translateFunction (o : Opts) (d : Nat) (f : FunctionP) (st : St) : R :=
   let funName := cleanup f.name
-  let st := { st with localFns := (funName, f.domain, f.name) :: st.localFns }
-  -- attribute parameters are registered first (fix 9e40403), then the inputs are translated
-  let st := { st with attrRen := f.attrs.reverse.map (·, none) ++ st.attrRen,
-                      namesUsed := f.attrs.reverse ++ st.namesUsed }
+  let st := funcState o d f st
   let (ins, st) := translateVars o st f.inputs
   let st := { st with remaps := [] :: st.remaps }
   match nodesLoop (translateNode o f.opsets d 1) f.nodes st with
